@@ -93,24 +93,24 @@ def run(rep, repo, tier):
 
 
 # ---- R3 -------------------------------------------------------------------------------------------------
-def check_status_plumbing(rep, repo):
+def check_status_plumbing(rep, repo, rule='C14.R3'):
     r = lpfacts.get_run(repo, False, False, [lpfacts.crit_config('MAXSIZE')])
     runf = repo.method('LP_Solver', 'run')
     calls = [e for e, _ in iter_effects(r.effs) if e.kind == 'call' and e.target is runf]
     if not calls:
-        rep.fail('C14.R3', repo.method('Solver', 'solve').where, 'Solver.solve calls LP_Solver.run', got='no call', construct='run not called')
+        rep.fail(rule, repo.method('Solver', 'solve').where, 'Solver.solve calls LP_Solver.run', got='no call', construct='run not called')
         return
     rv = calls[0].ret
     probs = list(r.it.lp_problems)
     ok = rv[0] == 'idx' and rv[1] == S('LpStatus') and rv[2][0] == 'attr' and rv[2][2] == 'status' and rv[2][1] in probs
-    rep.check(ok, 'C14.R3', runf.where, 'run() returns LpStatus[prob.status] of the problem that was solved', got=show(rv), want='LpStatus[self.prob.status]',
+    rep.check(ok, rule, runf.where, 'run() returns LpStatus[prob.status] of the problem that was solved', got=show(rv), want='LpStatus[self.prob.status]',
               construct='run return value ' + show(rv))
     stores = [e for e in r.of('store') if e.eff.target == A(lp.MODEL, 'pulp_status')]
-    rep.check(len(stores) == 1 and stores[0].eff.value == rv and not stores[0].sym_ifs, 'C14.R3', repo.method('Solver', 'solve').where,
+    rep.check(len(stores) == 1 and stores[0].eff.value == rv and not stores[0].sym_ifs, rule, repo.method('Solver', 'solve').where,
               'model.pulp_status receives exactly the value returned by run()', got=[show(e.eff.value) for e in stores], want=show(rv),
               construct='pulp_status store')
     c = pulpfacts.constants()
-    rep.check(spec.LPSTATUS_REQUIRED <= c['LpStatusStrings'], 'C14.R3', 'pulp/constants.py', 'PuLP LpStatus strings are the documented five',
+    rep.check(spec.LPSTATUS_REQUIRED <= c['LpStatusStrings'], rule, 'pulp/constants.py', 'PuLP LpStatus strings are the documented five',
               got=sorted(c['LpStatusStrings']), want=sorted(spec.LPSTATUS_REQUIRED), construct='LpStatus table')
 
 
